@@ -730,6 +730,20 @@ def check_euclid_t(case, rec):
         a[nsp:] = 0.0
         return a
 
+    # a spatio-temporal model whose dimension is reduced through the documented `dim` setter: what was a spatial rotation plane
+    # may now contain the time axis and has to be zeroed (angles of the remaining spatial planes are kept)
+    if sdim >= 2:
+        big = lib(getattr(gs, case["cls"]), temporal=True, spatial_dim=sdim + 1, len_scale=case["len_scale"], var=case["var"],
+                  angles=[0.3 + 0.2 * i for i in range(geo.n_angles(sdim + 2))],
+                  _what="temporal model in one more spatial dimension", _tags=tags)
+        lib(setattr, big, "dim", dim, _what="dim setter", _tags=tags)
+        got_b = np.asarray(big.angles, dtype=float)
+        rec.label("dim_reduced_by_setter")
+        require(
+            got_b.shape == (geo.n_angles(dim),) and bool(np.all(got_b[nsp:] == 0.0)),
+            f"dim setter ({dim + 1} -> {dim}, temporal): space-time rotation planes not zeroed: angles={got_b} (spatial angles: first {nsp})",
+            dict(tags, kind="temporal_angles"),
+        )
     requested = list(case["angles"])
     steps = [("constructor", requested)]
     if case["set_angles"] is not None:
